@@ -287,6 +287,10 @@ func cells(ks []*kindSpec) []*cell {
 	unaltered := func(kind, label string, v interface{}, negs ...interface{}) {
 		out = append(out, &cell{kind: k[kind], class: clSameSize, label: label, v: v, mode: mUnaltered, negs: negs, why: whySameSize})
 	}
+	// a value that does not implement the interface although its pointer type does: it may be refused, but what
+	// reaches a caller must be that value with its dynamic type intact (never a pointer to a copy)
+	out = append(out, &cell{kind: k["error"], class: clConcrete, label: "PErr{5} by value (Error is declared on *PErr)", v: c09t.PErr{Code: 5}, mode: mUnaltered,
+		why: "a value that does not implement the interface result may be refused; if it is delivered its dynamic type must be intact"})
 	unaltered("int64", "int(7)", 7, int64(8), int64(0))
 	unaltered("int64", "uint64(7)", uint64(7), int64(8))
 	unaltered("int64", "float64(1.5)", 1.5, int64(1), int64(2))
@@ -600,7 +604,7 @@ func (r *runner) viaReturn(c *cell, seq bool) (fs []finding, log []string) {
 		}
 		if c.mode == mUnaltered {
 			log = append(log, via+": delivered")
-			if !sameNumber(c.v, o.boxed) {
+			if !sameValueOrNumber(c.v, o.boxed) {
 				fs = append(fs, finding{via, "altered", fmt.Sprintf("call %d delivered %s for the supplied %s: a different number", i+1, describe(o.boxed), describe(c.v))})
 				return
 			}
@@ -1136,4 +1140,22 @@ func indexColon(s string) int {
 		}
 	}
 	return len(s)
+}
+
+// sameValueOrNumber: numbers are compared exactly across numeric types, everything else with same().
+func sameValueOrNumber(a, b interface{}) bool {
+	isNum := func(x interface{}) bool {
+		if x == nil {
+			return false
+		}
+		switch reflect.ValueOf(x).Kind() {
+		case reflect.Int, reflect.Int8, reflect.Int16, reflect.Int32, reflect.Int64, reflect.Uint, reflect.Uint8, reflect.Uint16, reflect.Uint32, reflect.Uint64, reflect.Uintptr, reflect.Float32, reflect.Float64:
+			return true
+		}
+		return false
+	}
+	if isNum(a) && isNum(b) {
+		return sameNumber(a, b)
+	}
+	return same(a, b)
 }
